@@ -38,7 +38,8 @@ ASSUMPTIONS = [
 LETTERS = 'abcdefghijklmnopqrstuvwxyzABCDEFGHIJKLMNOPQRSTUVWXYZ0123456789'
 PUNCT = ['.', ',', ';', ':', '!', '?', '-', '(', ')', "'", '"', '/', '+', '=', '*', '<', '>', '&', '%', '_', '|', '~']
 WORD = st.one_of(
-    st.sampled_from(['a', 'the', 'of', 'HL', 'A', 'x.', 'e.g.', 'i.e.', 'qux;', 'a;b', '"q"', '(IX+2)', '65535', 'a{b}c', 'x{y{z}}w', '<b>', 'R&D', '1<2', 'x>y', '-', ';']),
+    st.sampled_from(['a', 'the', 'of', 'HL', 'A', 'x.', 'e.g.', 'i.e.', 'qux;', 'a;b', '"q"', '(IX+2)', '65535', 'a{b}c', 'x{y{z}}w', '<b>', 'R&D', '1<2', 'x>y', '-', ';',
+                     '...and', '.5', '..x']),
     st.text(LETTERS, min_size=1, max_size=12),
     st.text(LETTERS, min_size=1, max_size=12),
     st.builds(lambda a, p, b: a + p + b, st.text(LETTERS, min_size=1, max_size=6), st.sampled_from(PUNCT), st.text(LETTERS, min_size=0, max_size=6)),
@@ -534,9 +535,9 @@ def ctl_oracle(case, rec=None):
                 ws = ws[1:]
             stream += ws
         elif l[:1] in ' bcgstuw*' and ' ;' in l:
-            m = re.search(r' ; ?(.*)$', l)
-            if m:
-                stream += words(m.group(1))
+            k = _comment_pos(l)
+            if k is not None:
+                stream += words(l[k + 2:])
     exp = []
     for b in case['model']:
         exp += b['title']
@@ -560,7 +561,8 @@ def ctl_oracle(case, rec=None):
         if l.startswith(';'):
             bad = len(l[1:].split()) > 3        # '. ' marker / register name + one unbreakable word
         else:
-            head, sep, ctext = l.partition(' ; ')
+            k = _comment_pos(l)
+            head, ctext = (l, '') if k is None else (l[:k], l[k + 3:])
             allowed = max(width - len(head) - 3, 10)      # CommentWidthMin (default 10) wins over the line width
             bad = len(ctext) > allowed and len(ctext.strip('{}').split()) > 1
         if bad:
@@ -568,6 +570,23 @@ def ctl_oracle(case, rec=None):
     if rec is not None:
         rec.case((case['data'], case['ctl'], width), len(r.out.split('\n')) > len(case['ctl'].split('\n')) + 5, ['ctl'] + (['ctl:over-width'] if over else []),
                  {'width': width, 'ctl': case['ctl'][:400]})
+
+
+def _comment_pos(line):
+    """Index of the ' ;' that starts the comment field of an instruction line (a ';' inside a string is data)."""
+    quoted = False
+    i = 6
+    while i < len(line):
+        ch = line[i]
+        if quoted and ch == '\\':
+            i += 2
+            continue
+        if ch == '"':
+            quoted = not quoted
+        elif ch == ';' and not quoted and line[i - 1] == ' ':
+            return i - 1
+        i += 1
+    return None
 
 
 def _strip_braces(stream):
